@@ -72,10 +72,16 @@ package commitments
 //@   loop 0 invariant 0 <= secretsLen && secretsLen <= $iter * 281474976710657 && len(b.parts) <= 3
 //@   loop 1 invariant fresh(secrets) && len(b.parts) <= 3
 
+// onePart: the packing the builder produces for a single part of 1..MaxPartSize numbers
+//@ define onePart(secrets) = (len(secrets) >= 2 && len(secrets) - 1 <= 1048576 && val(secrets[0]) == len(secrets) - 1)
 //@ func ParseSecrets
 //@   deadpoints 2
 //@   props C06 C16
 //@   requires forall k in 0..len(secrets) :: secrets[k] != nil
 //@   ensures [C16.parts-cap] result1 == nil ==> len(result0) <= 3
-//@   loop 0 invariant 0 <= el && len(parts) <= 3 && fresh(parts)
+//@   ensures [C16.every-parsed-part-is-within-the-size-cap] result1 == nil ==> (forall k in 0..len(result0) :: len(result0[k]) <= 1048576)
+//@   ensures [C16.one-part-packing-within-the-builder-limit-is-accepted] onePart(secrets) ==> (result1 == nil && len(result0) == 1 && len(result0[0]) == len(secrets) - 1 && arr(result0[0]) == arr(secrets) && off(result0[0]) == off(secrets) + 1)
+//@   loop 0 invariant 0 <= el && len(parts) <= 3 && fresh(parts) && inLen == len(secrets)
+//@   loop 0 invariant forall k in 0..len(parts) :: len(parts[k]) <= 1048576
+//@   loop 0 invariant onePart(secrets) ==> ((el == 0 && isLenEl && len(parts) == 0) || (el == 1 && !isLenEl && nextPartLen == len(secrets) - 1 && len(parts) == 0) || (el == len(secrets) && isLenEl && len(parts) == 1 && len(parts[0]) == len(secrets) - 1 && arr(parts[0]) == arr(secrets) && off(parts[0]) == off(secrets) + 1))
 //@   loop 0 invariant [partlen] !isLenEl ==> (0 <= nextPartLen && nextPartLen <= 1048576)
